@@ -34,7 +34,7 @@ Definition c15_thresholds (tv : list (str * str * str)) (l : layout) (files : li
 
 (* InTotoVerify without inspections and certificates: accept / reject / PANIC *)
 Definition c15_verify (now : Z) (truths : list (str * str)) (d : linkdir) (layout_env : env) (keys : amap key) : str :=
-  match firstn 1 (e2e_run now truths [] [] [] [] [] d layout_env keys [] []) with
+  match firstn 1 (e2e_run now truths [] [] [] [] [] [] d layout_env keys [] []) with
   | [97] => bs "OK"
   | [80] => bs "PANIC"
   | _ => bs "ERR"
